@@ -104,7 +104,12 @@ func runMiniGoSpec(c *Ctx, progs []*Prog, maxCh int, tag string) *mgBatch {
 	done := make(chan int, n)
 	sem := make(chan struct{}, 4)
 	for _, p := range progs {
-		b.Sources[p.ID] = p.Source(false, nil)
+		if p.Split != nil {
+			fs := p.Files(false, nil)
+			b.Sources[p.ID] = "// ---- lib/lib.go\n" + fs["lib/lib.go"] + "// ---- main/main.go\n" + fs["main/main.go"]
+		} else {
+			b.Sources[p.ID] = p.Source(false, nil)
+		}
 		if os.Getenv("VERIF_KEEP_WORK") != "" {
 			os.MkdirAll(filepath.Join(c.Work, "sources"), 0o755)
 			os.WriteFile(filepath.Join(c.Work, "sources", p.ID+".go"), []byte(b.Sources[p.ID]), 0o644)
@@ -187,6 +192,9 @@ func goatRun(p *Prog, src string, ch []int, optimize bool) RunResult {
 		pkg = "main"
 	}
 	files := map[string]string{pkg + "/" + pkg + ".go": src}
+	if p.Split != nil {
+		files = p.Files(false, nil)
+	}
 	if p.NeedChoice {
 		vals := make([]goat.Value, len(ch))
 		for i, c := range ch {
@@ -219,7 +227,16 @@ func calibrateGo(c *Ctx, b *mgBatch, tag string) {
 		for _, bh := range behs {
 			cvs = append(cvs, bh.Ch)
 		}
-		src := p.Source(true, cvs)
+		src := ""
+		if p.Split != nil {
+			// the split layout is what the Go toolchain compiles: it checks the layout as well as the meaning
+			fs := p.Files(true, cvs)
+			src = strings.Replace(fs["main/main.go"], "LIBPATH", fmt.Sprintf("cal/p%d/lib", i), 1)
+			must(os.MkdirAll(filepath.Join(dir, fmt.Sprintf("p%d", i), "lib"), 0o755))
+			must(os.WriteFile(filepath.Join(dir, fmt.Sprintf("p%d", i), "lib", "lib.go"), []byte(fs["lib/lib.go"]), 0o644))
+		} else {
+			src = p.Source(true, cvs)
+		}
 		src = strings.Replace(src, "package main\n", fmt.Sprintf("package p%d\n", i), 1)
 		src = strings.Replace(src, "func main() {", "func RunAll() {", 1)
 		must(os.MkdirAll(filepath.Join(dir, fmt.Sprintf("p%d", i)), 0o755))
